@@ -53,6 +53,23 @@ def generate(streams, tier):
     else:
         world = W.gen_mn(streams, max_n=7 if big else 6, min_n=1 if kind != "fg" else 2, max_joint=16384 if big else 2048, connected=True,
                          dup_rate=0.0, scale_rate=0.3, hub_rate=0.25)
+    rb = streams.s("bigcard")
+    if kind in ("mn", "fg") and rb.random() < 0.06:
+        # two variables with a three-digit number of states shared by two cliques, a third clique sharing one of them: the sepsets
+        # {A, B} and {A} differ by four orders of magnitude in table size, whatever the clique tree weighs has to rank them by
+        # the number of shared VARIABLES
+        c = rb.randint(101, 110)
+        labels, lm = W.gen_labels(streams.s("labels_bigcard"), 5, "str")
+        scopes = [[0, 1, 2], [0, 1, 3], [0, 4]]
+        card = [c, c, 2, 2, 2]
+        factors = [{"scope": shuffled(rb, sc), "values": None} for sc in scopes]
+        for f in factors:
+            size = 1
+            for v in f["scope"]:
+                size *= card[v]
+            f["values"] = [rb.randint(1, 40) / 8.0 for _ in range(size)]
+        world = {"kind": "mn", "n": 5, "card": card, "edges": [[0, 1], [0, 2], [1, 2], [0, 3], [1, 3], [0, 4]], "factors": shuffled(rb, factors),
+                 "labels": labels, "states": [None] * 5, "flags": {"style": "bigcard", "density": 0, "label_mode": lm, "state_named": False, "ring": False}}
     ri = streams.s("insertion")
     cfg = {"kind": kind}
     if kind == "bn":
@@ -85,7 +102,10 @@ def generate(streams, tier):
             ops.append(q)
         else:
             ops.append({"op": k})
-    return {"world": world, "config": cfg, "shared_engine": shared, "ops": ops, "backend": streams.s("config").choice(seams.BACKENDS)}
+    backend = streams.s("config").choice(seams.BACKENDS)
+    if world.get("flags", {}).get("style") == "bigcard":
+        ops, backend = ops[:3], "numpy"   # tables of 30 000 cells: seconds per step, so a short history on the default backend
+    return {"world": world, "config": cfg, "shared_engine": shared, "ops": ops, "backend": backend}
 
 
 def gen_query(r, world, ref, allow_virtual):
